@@ -320,6 +320,36 @@ def auto_cases(mode, tier, rng):
     return cases
 
 
+def auto_large_cases():
+    """bounds far beyond the sampled range |x| <= 1e3 (the statement's "for all bound pairs (finite, ...)" has no
+    magnitude limit): powers of two around 2^15 - where `bound -+ 1e-12` starts to round back to the bound -, 1e5 ...
+    1e300, every open/closed combination, default and larger constraint precisions.  Float only.  Where the setter
+    raises the driver answers `auto_total_rounding` (known finding C01-auto-raises-large-open-bound)."""
+    cases = []
+    mags = [8192.0, 16384.0, 32768.0, 65536.0, 1e5, 1e6, 2.0 ** 30, 1e12, 1e15, 2.0 ** 53, 1e100, 1e300]
+    n = 0
+    for m in mags:
+        for (lo, hi) in ((0.0, m), (-m, 0.0), (-m, m), (m, 2 * m), (-INF, m), (-m, INF)):
+            for il, iu in itertools.product((0, 1), repeat=2):
+                cp = [None, None, m * 1e-9, 0.0][n % 4]          # None = the default 1e-12 (ic.new4)
+                n += 1
+                if lo == -INF:
+                    start = hi - m / 2
+                elif hi == INF:
+                    start = lo + m / 2
+                else:
+                    start = lo + (hi - lo) / 2
+                ops = ["ic.new4 0 %s %s %d %d" % (H(lo), H(hi), il, iu) if cp is None else
+                       "ic.new 0 %s %s %d %d %s" % (H(lo), H(hi), il, iu, H(cp)),
+                       "p.new3 0 1 %s 0" % H(start)]
+                fin = [b for b in (lo, hi) if abs(b) != INF]
+                for b0 in fin:
+                    for r in (b0, math.nextafter(b0, INF), math.nextafter(b0, -INF), b0 * 2 if b0 else m * 3, -(b0 * 2 if b0 else m * 3), b0 + 1, b0 - 1):
+                        ops += ["p.set 0 %s" % H(r), "p.set 0 %s" % H(start)]
+                cases.append(["case aul%d flt" % len(cases)] + ops)
+    return cases
+
+
 # --------------------------------------------------------------------------- constraints as shared objects
 def shared_case(rng, mode, idx, maxlen, unsafe):
     """histories on the pointer model (BppModel/ParamShared.lean).  Registers 0,1 hold the objects that are
@@ -508,7 +538,7 @@ def describe_cases(rng, tier):
             ops += ["ic.parse 0 %s" % S("".join(m)), "ic.get 0"]
         elif x < 0.7:
             ops += ["ic.parse 0 %s" % S(rng.choice(["", "[", "[;", "[;]", "[1;2", "1;2]", " [1;2]", "[1,2]", "];[", "[1;2;3]", "[--1;2]", "[1.2.3;4]", "[1;abc]",
-                                                    "[-;1]", "[.;1]", "[e5;1]", "[-.;1]", "[0;-]", "[0;.]", "[0;e5]", "[-e1;1]", "[.e1;1]", "[1e2;.5e1]", "[-1.;1.]", "[25e-1;1e+1]", "[1e-1;1]", "[1e400;inf]", "[1e;2]", "[1e+;2]", "[ ; ]", "[1;]", "[;1]", "[inf;1]", "[1;-inf]", "[0.1;0.2]",
+                                                    "[-;1]", "[.;1]", "[e5;1]", "[-.;1]", "[0;-]", "[0;.]", "[0;e5]", "[-e1;1]", "[.e1;1]", "[1e2;.5e1]", "[-1.;1.]", "[25e-1;1e+1]", "[1e-1;1]", "[1e400;inf]", "[1e400;2]", "[1e-400;1]", "[-1e400;1]", "[0;1e309]", "[0.1;abc]", "[1e;2]", "[1e+;2]", "[ ; ]", "[1;]", "[;1]", "[inf;1]", "[1;-inf]", "[0.1;0.2]",
                                                     "[1e2;1e3]", "[1.;2.]", "[.5;1]", "[-0;0]", "[ -inf ; +inf ]", "]-inf;inf[", "[5;1]", "[1;1["])), "ic.get 0"]
         if len(ops) > 300:
             cases.append(["case d%d rat" % len(cases)] + ops)
@@ -529,6 +559,7 @@ def generate(seed, tier):
     cases += describe_cases(rng, tier)
     for mode in ("rat", "flt"):
         cases += auto_cases(mode, tier, rng)
+    cases += auto_large_cases()
     ns = 6000 if tier == "thorough" else 1200
     for i in range(ns):
         mode = "flt" if i % 2 else "rat"
